@@ -148,8 +148,9 @@ type I interface {
 
 type T1 struct{ V int }
 
-func (t T1) Get() int     { return t.V }
-func (t T1) Name() string { return "T1" }
+func (t T1) Get() int       { return t.V }
+func (t T1) Name() string   { return "T1" }
+func (t T1) Plus(x int) int { return t.V + x }
 
 type T2 struct {
 	W int
@@ -159,11 +160,13 @@ type T2 struct {
 func (t *T2) Get() int     { return t.W * 2 }
 func (t *T2) Name() string { return "T2" + t.N }
 func (t *T2) Set(w int)    { t.W = w }
+func (t *T2) Mul(x int) int { return t.W * x }
 
 type T3 int
 
 func (t T3) Get() int     { return int(t) + 1 }
 func (t T3) Name() string { return "T3" }
+func (t T3) Add(x int) int { return int(t) + x }
 
 type MyErr struct{ Code int }
 
